@@ -173,3 +173,70 @@ Proof.
   split; [now apply wf_norm|]. split; [now rewrite (rcontent_norm b l' Hw)|].
   destruct (live_reread b l' Hw) as (a & P & _ & A & V). exists a. rewrite (rrender_norm b l' Hw). rewrite <- Hc. auto.
 Qed.
+
+(* ------------------------------------------------------------------ the initial states *)
+(* a well-formed field read strictly (Relations::from_str), read with substitution variables
+   allowed (Relations::parse_relaxed(s, true)), and the empty field (Relations::new) *)
+Lemma init_strict f : wf_rfield false f = true ->
+  exists st, init_state fixed (IStrict (rrender f)) = Ok st /\ holds st (rtree_of f).
+Proof.
+  intros H. unfold init_state, build_init, relations_parse. unfold mbind, lift. rewrite (from_str_rrender f H).
+  eexists. split; [reflexivity|]. now exists [mk_slot true 0 (rtree_of f)], 0, 0, None, None, None, None.
+Qed.
+Lemma init_relaxed f : wf_rfield true f = true ->
+  exists st, init_state fixed (IRelaxed (rrender f)) = Ok st /\ holds st (rtree_of f).
+Proof.
+  intros H. destruct (C10_lossless_all true f H) as (_ & _ & P & _).
+  unfold init_state, build_init. unfold mbind, lift. rewrite P.
+  eexists. split; [reflexivity|]. now exists [mk_slot true 0 (rtree_of f)], 0, 0, None, None, None, None.
+Qed.
+Definition empty_rfield : rfield := mk_rfield [] IEmpty [].
+Lemma init_empty : exists st, init_state fixed INew = Ok st /\ holds st (rtree_of empty_rfield).
+Proof. exact init_new. Qed.
+
+Theorem history_from_text ops f : wf_rfield true f = true -> forallb operands_ok ops = true ->
+  xsteps_in_range (fst (rcontent f)) ops = true ->
+  exists st0 l' st',
+    init_state fixed (IRelaxed (rrender f)) = Ok st0 /\
+    a_ops ops (live_of f) = Some l' /\
+    run_ops fixed (compile_all ops) st0 = Ok st' /\
+    root_tree st' = Ok (ltree l') /\ root_text st' = Ok (rrender (norm l')) /\
+    wf_rfield true (norm l') = true /\
+    rcontent (norm l') = (fold_left xstep ops (fst (rcontent f)), snd (rcontent f)) /\
+    exists a, parse_relaxed (rrender (norm l')) true = Ok (rtree_of (norm l'), 0) /\
+              racc (rtree_of (norm l')) = Ok a /\
+              racc_view a = (fold_left xstep ops (fst (rcontent f)), snd (rcontent f)).
+Proof.
+  intros H Ho Hr. destruct (init_relaxed f H) as (st0 & I & Hst).
+  destruct (history_any_field true ops f st0 H Ho Hr Hst) as (l' & st' & R). exists st0, l', st'. tauto.
+Qed.
+Theorem history_from_strict_text ops f : wf_rfield false f = true -> forallb operands_ok ops = true ->
+  xsteps_in_range (fst (rcontent f)) ops = true ->
+  exists st0 l' st',
+    init_state fixed (IStrict (rrender f)) = Ok st0 /\
+    a_ops ops (live_of f) = Some l' /\
+    run_ops fixed (compile_all ops) st0 = Ok st' /\
+    root_text st' = Ok (rrender (norm l')) /\
+    wf_rfield false (norm l') = true /\
+    relations_from_str (rrender (norm l')) = Ok (rtree_of (norm l')) /\
+    exists a, racc (rtree_of (norm l')) = Ok a /\
+              racc_view a = (fold_left xstep ops (fst (rcontent f)), snd (rcontent f)).
+Proof.
+  intros H Ho Hr. destruct (init_strict f H) as (st0 & I & Hst).
+  destruct (history_any_field false ops f st0 H Ho Hr Hst) as (l' & st' & Ha & R & RT & RX & Hw & Hc & a & P & A & V).
+  exists st0, l', st'. repeat split; auto. - now apply from_str_rrender. - eauto.
+Qed.
+Theorem history_from_empty ops : forallb operands_ok ops = true -> xsteps_in_range [] ops = true ->
+  exists st0 l' st',
+    init_state fixed INew = Ok st0 /\
+    a_ops ops [] = Some l' /\
+    run_ops fixed (compile_all ops) st0 = Ok st' /\
+    root_text st' = Ok (rrender (norm l')) /\
+    wf_rfield false (norm l') = true /\
+    relations_from_str (rrender (norm l')) = Ok (rtree_of (norm l')) /\
+    exists a, racc (rtree_of (norm l')) = Ok a /\ racc_view a = (fold_left xstep ops [], []).
+Proof.
+  intros Ho Hr. destruct init_empty as (st0 & I & Hst).
+  destruct (history_any_field false ops empty_rfield st0 eq_refl Ho Hr Hst) as (l' & st' & Ha & R & RT & RX & Hw & Hc & a & P & A & V).
+  exists st0, l', st'. repeat split; auto. - now apply from_str_rrender. - eauto.
+Qed.
